@@ -161,7 +161,7 @@ func c09(c *Ctx) {
 		c.End()
 	}
 	// ---- part 1: files written now
-	n := c.N(240, 3000)
+	n := c.N(600, 8000)
 	tallEvery := c.N(12, 12)
 	for i := 0; i < n; i++ {
 		if !c.Mine(i) {
